@@ -44,6 +44,11 @@ def main():
     demo = os.path.join(src, f"demo{a.k}.py")
     note = os.path.join(src, f"note{a.k}.md")
     sid = f"{a.prop}-{a.k}"
+    stored = os.path.join(ROOT, "seeded", sid)
+    if not os.path.exists(patch) and os.path.exists(os.path.join(stored, "patch.diff")):
+        # re-evaluation of an already stored seed
+        src = stored
+        patch, demo, note = (os.path.join(stored, n) for n in ("patch.diff", "demo.py", "note.md"))
     d = tempfile.mkdtemp(prefix=f"rv-seed-{sid}-", dir="/tmp")
     meta = {"id": sid, "property": a.prop, "source": "independent sub-agent given only the property text and a scratch worktree"}
     try:
@@ -83,10 +88,12 @@ def main():
         if confirmed and not a.no_store:
             out = os.path.join(ROOT, "seeded", sid)
             os.makedirs(out, exist_ok=True)
-            shutil.copy(patch, os.path.join(out, "patch.diff"))
-            shutil.copy(demo, os.path.join(out, "demo.py"))
+            if os.path.abspath(src) != os.path.abspath(out):
+                shutil.copy(patch, os.path.join(out, "patch.diff"))
+                shutil.copy(demo, os.path.join(out, "demo.py"))
+                if os.path.exists(note):
+                    shutil.copy(note, os.path.join(out, "note.md"))
             if os.path.exists(note):
-                shutil.copy(note, os.path.join(out, "note.md"))
                 meta["needs_to_manifest"] = open(note, encoding="utf-8").read()[:1500]
             prev = {}
             mp = os.path.join(out, "meta.json")
